@@ -1,10 +1,13 @@
 package main
 
 import (
+	"encoding/json"
 	"fmt"
 	"math"
+	"strings"
 
 	"github.com/ovn-org/libovsdb/ovsdb"
+	"github.com/ovn-org/libovsdb/server"
 
 	"verifharness/dyn"
 	"verifharness/emit"
@@ -120,7 +123,7 @@ func c02Regressions(o opts, g *gen.G, syms *val.Syms, w *emit.Writer) error {
 		}
 		regReport(w, "one uuid in two tables", failure)
 	}
-	return nil
+	return c02Requests(o, g, syms, w)
 }
 
 func showResults(res []*ovsdb.OperationResult) string {
@@ -222,6 +225,205 @@ func c06Regressions(o opts, g *gen.G, syms *val.Syms, w *emit.Writer) error {
 			}
 		}
 		regReport(w, "duplicate hidden by a delete in another table", failure)
+	}
+	return nil
+}
+
+// c02Requests: "transact" requests as the server receives them, one argument of which cannot be decoded as an
+// operation. The operations before it are executed and have their results, the syntax error follows (whatever the
+// checks made at the end of a transaction would say about them), nothing is committed. Compared with
+// [server_transact] (Db/NamedUUID.v) and judged by a direct oracle.
+func c02Requests(o opts, g *gen.G, syms *val.Syms, w *emit.Writer) error {
+	n := 30
+	if o.tier == "thorough" {
+		n = 600
+	}
+	garbage := []string{
+		`{"op":"insert","table":42}`,
+		`{"op":"mutate","table":"P","where":[],"mutations":[["n","bogus",1]]}`,
+		`["set",5]`,
+		`{"op":"select","table":"P","where":[["name","=="]]}`,
+		`{"op":"select","table":"P","where":[["name","~~","x"]]}`,
+		`{"op":"wait","table":"P","timeout":"soon","where":[],"until":"==","rows":[]}`,
+		`5`,
+		`{"op":"update","table":"P","where":[],"row":{"ss":["set",5]}}`,
+	}
+	for ci := 0; ci < n; ci++ {
+		sc := c02Schema()
+		lab, err := newTxnLab(sc)
+		if err != nil {
+			return err
+		}
+		srv, err := server.NewOvsdbServer(lab.imdb, lab.db.Model)
+		if err != nil {
+			return err
+		}
+		tg := &txnGen{g: g, sc: sc, state: map[string]map[string]map[string]val.Val{}, pool: 3, pSelect: 0.15, pWait: 0.05, pInvalid: 0.25, dangling: 0.1}
+		st, refs, _ := lab.state()
+		tg.state = st
+		var txnTerms []string
+		var txnJ []interface{}
+		failure := ""
+		nt := 1 + g.Intn(2)
+		for ti := 0; ti < nt; ti++ {
+			ops := tg.txn(4)
+			if ti == 0 {
+				ops = c02Seed(tg)
+			}
+			ob := lab.run(ops)
+			for i := range ops {
+				if ops[i].Kind == "insert" && ops[i].UUID == "" {
+					if i < len(ob.Results) && ob.Results[i].Kind == "uuid" {
+						ops[i].UUID = ob.Results[i].UUID
+					} else {
+						ops[i].UUID = gen.UUIDn(710000 + ti*16 + i)
+					}
+				}
+			}
+			if ob.Panic != "" && failure == "" {
+				failure = fmt.Sprintf("transaction %d: panic: %s", ti, ob.Panic)
+			}
+			st, refs = ob.State, ob.Refs
+			tg.state = st
+			var opJ []interface{}
+			for _, op := range ops {
+				opJ = append(opJ, op.json())
+			}
+			txnTerms = append(txnTerms, fmt.Sprintf("(%s,\n     %s)", coqTxn(syms, ops), lab.coqObs(syms, ob)))
+			txnJ = append(txnJ, map[string]interface{}{"ops": opJ, "observed": jsonObs(ob)})
+		}
+		// the request
+		var ops []TOp
+		switch ci % 5 {
+		case 0:
+			// two rows that collide in the index on "name": only the check at the end of a transaction would notice
+			nm := val.VA(val.Str(fmt.Sprintf("dup%d", ci)))
+			q := tg.uuidsOf("Q")
+			w1 := val.VS(val.Uuid(q[0]))
+			ops = []TOp{{Kind: "insert", Table: "P", UUID: tg.fresh(), Row: map[string]val.Val{"name": nm, "w1": w1}},
+				{Kind: "insert", Table: "P", UUID: tg.fresh(), Row: map[string]val.Val{"name": nm, "w1": w1}}}
+		case 1:
+			// a strong reference to a row that does not exist: refused at the end of a transaction only
+			q := tg.uuidsOf("Q")
+			ops = []TOp{{Kind: "insert", Table: "P", UUID: tg.fresh(), Row: map[string]val.Val{"name": val.VA(val.Str(fmt.Sprintf("dangling%d", ci))),
+				"w1": val.VS(val.Uuid(q[0])), "kids": val.VS(val.Uuid(gen.UUIDn(999000 + ci)))}}}
+		default:
+			ops = tg.txn(4)
+		}
+		k := g.Intn(len(ops) + 1)
+		if ci%5 < 2 {
+			k = len(ops)
+		}
+		bad := garbage[g.Intn(len(garbage))]
+		var probe ovsdb.Operation
+		if json.Unmarshal([]byte(bad), &probe) == nil {
+			failure = fmt.Sprintf("the argument %s is decoded as an operation", bad)
+		}
+		args := []json.RawMessage{json.RawMessage(fmt.Sprintf("%q", lab.name))}
+		var argTerms []string
+		var argJ []interface{}
+		var shown []TOp
+		for i := 0; i <= len(ops); i++ {
+			if i == k {
+				args = append(args, json.RawMessage(bad))
+				argTerms = append(argTerms, "None")
+				argJ = append(argJ, json.RawMessage(bad))
+				shown = append(shown, TOp{Kind: "other"})
+			}
+			if i < len(ops) {
+				b, err := json.Marshal(ops[i].operation(lab.db))
+				if err != nil {
+					return err
+				}
+				args = append(args, b)
+			}
+		}
+		var reply []*ovsdb.OperationResult
+		panicked := ""
+		var rerr error
+		func() {
+			defer func() {
+				if p := recover(); p != nil {
+					panicked = fmt.Sprint(p)
+				}
+			}()
+			rerr = srv.Transact(nil, args, &reply)
+		}()
+		// uuids the server chose for the inserts it executed
+		ri := 0
+		for i := 0; i <= len(ops); i++ {
+			if i == k {
+				ri++
+			}
+			if i < len(ops) {
+				if ops[i].Kind == "insert" && ops[i].UUID == "" {
+					if ri < len(reply) && reply[ri] != nil && reply[ri].Error == "" {
+						ops[i].UUID = reply[ri].UUID.GoUUID
+					} else {
+						ops[i].UUID = gen.UUIDn(720000 + i)
+					}
+				}
+				ri++
+			}
+		}
+		shown = nil
+		for i := 0; i <= len(ops); i++ {
+			if i == k {
+				shown = append(shown, TOp{Kind: "other"})
+			}
+			if i < len(ops) {
+				shown = append(shown, ops[i])
+			}
+		}
+		argTerms = nil
+		argJ = nil
+		for _, op := range shown {
+			if op.Kind == "other" && op.OpName == "" && op.Table == "" {
+				argTerms = append(argTerms, "None")
+				argJ = append(argJ, bad)
+			} else {
+				argTerms = append(argTerms, "Some "+op.coqNamed(syms))
+				argJ = append(argJ, op.json())
+			}
+		}
+		results := lab.convertResults(shown, reply)
+		after, afterRefs, _ := lab.state()
+		if failure == "" {
+			switch {
+			case panicked != "":
+				failure = "the server's Transact panics: " + panicked
+			case rerr != nil:
+				failure = fmt.Sprintf("the request is answered with an error instead of results: %v", rerr)
+			case len(results) != len(shown):
+				failure = fmt.Sprintf("the reply has %d results for %d operations: %s", len(results), len(shown), showResults(reply))
+			case stateKey(st, refs) != stateKey(after, afterRefs):
+				failure = "a request with an operation that cannot be decoded changed the database"
+			default:
+				first := -1
+				for i, r := range results {
+					if r.Kind == "err" && first < 0 {
+						first = i
+					}
+					if first < 0 && r.Kind == "null" {
+						failure = fmt.Sprintf("result %d is null although no operation before it failed: %s", i, showResults(reply))
+					}
+					if first >= 0 && i > first && r.Kind != "null" {
+						failure = fmt.Sprintf("operation %d failed but result %d is not null: %s", first, i, showResults(reply))
+					}
+				}
+				if failure == "" && (first < 0 || first > k) {
+					failure = fmt.Sprintf("operation %d cannot be decoded but the first error is at %d: %s", k, first, showResults(reply))
+				}
+				if failure == "" && first == k && reply[k].Error != "syntax error" {
+					failure = fmt.Sprintf("every operation before operation %d succeeded and it cannot be decoded, but its result is %q (%s), not a syntax error", k, reply[k].Error, reply[k].Details)
+				}
+			}
+		}
+		term := fmt.Sprintf("Txn.mkReq (%s)\n   [%s]\n   [%s]\n   %s", dyn.CoqSchema(syms, sc), strings.Join(txnTerms, ";\n    "), strings.Join(argTerms, ";\n    "), coqResults(syms, results))
+		w.Count("request:undecodable operation")
+		w.Count(fmt.Sprintf("request:garbage at %d of %d", k, len(ops)))
+		w.Add(emit.Case{Term: term, JSON: map[string]interface{}{"schema": sc.JSON(), "transactions": txnJ, "request": argJ, "reply": showResults(reply)},
+			Key: term, Nontrivial: k > 0, Class: "request", Oracle: failure})
 	}
 	return nil
 }
